@@ -31,7 +31,9 @@ type Acct struct{ Kind, Key int }
 
 func (a Acct) Priv() crypto.PrivateKeyI { return keys.Kind(a.Kind, a.Key) }
 func (a Acct) Addr() []byte             { return chainsim.Addr(a.Priv()) }
-func (a Acct) String() string           { return fmt.Sprintf("%s%d", [...]string{"bls", "ed", "secp", "eth"}[a.Kind%4], a.Key) }
+func (a Acct) String() string {
+	return fmt.Sprintf("%s%d", [...]string{"bls", "ed", "secp", "eth"}[a.Kind%4], a.Key)
+}
 
 const (
 	RichAmount = 50_000_000_000
@@ -117,7 +119,9 @@ func (w *World) GenTx(t *rapid.T, height uint64, kinds []string) []Tx {
 	kind := rapid.SampledFrom(kinds).Draw(t, "txKind")
 	rich := func(l string) Acct { return w.Rich[rapid.IntRange(0, len(w.Rich)-1).Draw(t, l)] }
 	fee := uint64(10000)
-	one := func(bz []byte, intent, desc string) []Tx { return []Tx{{Bytes: bz, Kind: kind, Intent: intent, Desc: desc}} }
+	one := func(bz []byte, intent, desc string) []Tx {
+		return []Tx{{Bytes: bz, Kind: kind, Intent: intent, Desc: desc}}
+	}
 	switch kind {
 	case "send":
 		from, to := rich("from"), rapid.IntRange(20, 40).Draw(t, "toKey")
